@@ -33,6 +33,9 @@ pub struct IrrDb {
     pub as_sets: BTreeMap<String, Vec<String>>,
     pub route_sets: BTreeMap<String, Vec<String>>,
     pub filter_sets: BTreeMap<String, String>,
+    /// the copies of filter-sets that a second registry (source TEST2, selected by default as well) holds: a name in both
+    /// tables is answered with two objects, the one of TEST first
+    pub filter_sets2: BTreeMap<String, String>,
     pub routes4: BTreeMap<String, Vec<String>>,
     pub routes6: BTreeMap<String, Vec<String>>,
     pub errors: BTreeMap<String, String>,
@@ -69,6 +72,10 @@ impl IrrDb {
             as_sets: map_list(&v["as_sets"]),
             route_sets: map_list(&v["route_sets"]),
             filter_sets: v["filter_sets"]
+                .as_object()
+                .map(|o| o.iter().map(|(k, x)| (k.to_uppercase(), x.as_str().unwrap_or("").to_string())).collect())
+                .unwrap_or_default(),
+            filter_sets2: v["filter_sets2"]
                 .as_object()
                 .map(|o| o.iter().map(|(k, x)| (k.to_uppercase(), x.as_str().unwrap_or("").to_string())).collect())
                 .unwrap_or_default(),
@@ -240,15 +247,23 @@ impl IrrDb {
         if let Some(rest) = q.strip_prefix("!m") {
             let (class, name) = rest.split_once(',').unwrap_or((rest, ""));
             if class == "filter-set" {
-                if let Some(expr) = self.filter_sets.get(&name.to_uppercase()) {
-                    let mut remarks = String::new();
-                    while remarks.len() < self.pad {
-                        remarks.push_str("remarks:        ------------------------------------------------------------\n");
-                    }
-                    let obj = format!(
-                        "filter-set:     {name}\ndescr:          generated\n{remarks}mp-filter:      {expr}\nchanged:        noc@example.net 20240101\ntech-c:         DUMY-TEST\nadmin-c:        DUMY-TEST\nmnt-by:         MAINT-TEST\nsource:         TEST\n"
-                    );
-                    return Some(format!("A{}\n{}C\n", obj.len(), obj));
+                let mut remarks = String::new();
+                while remarks.len() < self.pad {
+                    remarks.push_str("remarks:        ------------------------------------------------------------\n");
+                }
+                let object = |expr: &String, source: &str| {
+                    format!(
+                        "filter-set:     {name}\ndescr:          generated\n{remarks}mp-filter:      {expr}\nchanged:        noc@example.net 20240101\ntech-c:         DUMY-TEST\nadmin-c:        DUMY-TEST\nmnt-by:         MAINT-TEST\nsource:         {source}\n"
+                    )
+                };
+                // one object per registry that has the name, in the server's order of the registries
+                let objs: Vec<String> = [(self.filter_sets.get(&name.to_uppercase()), "TEST"), (self.filter_sets2.get(&name.to_uppercase()), "TEST2")]
+                    .iter()
+                    .filter_map(|(e, src)| e.map(|e| object(e, src)))
+                    .collect();
+                if !objs.is_empty() {
+                    let body = objs.join("\n");
+                    return Some(format!("A{}\n{}C\n", body.len(), body));
                 }
             }
             let upper = name.to_uppercase();
